@@ -1,6 +1,336 @@
-use crate::worker::Ctx;
+//! C08 (serialisation and attribution halves): the build log driven directly
+//! through the facade.  What is written for a step must be what is loaded for
+//! it, for counts and lengths at every field-width boundary; and a record
+//! applies to a step of a changed manifest iff every output named in it is
+//! produced by that one step, the latest such record winning.
+
+use crate::worker::{catch, Ctx, Tier};
+use n2::verif::DbSession;
+use serde_json::{json, Value};
+use std::path::Path;
+use vcore::enumerate::permutations;
 use vcore::report::ShardResult;
 
-pub fn run(_ctx: &mut Ctx) -> ShardResult {
-    unimplemented!("engine dbrt")
+pub fn jobs(_tier: Tier) -> Vec<(String, u64)> {
+    vec![("dbrt:shapes".into(), 16), ("dbrt:attribution".into(), 16)]
+}
+
+const DEP_COUNTS: &[usize] = &[0, 1, 2, 255, 256, 257, 65535, 65536, 65537];
+const NAME_LENS: &[usize] = &[1, 2, 127, 128, 255, 256, 1000, 4095];
+
+fn name_of_len(prefix: &str, n: usize, utf8: bool) -> String {
+    let mut s = String::from(prefix);
+    let unit = if utf8 { "é" } else { "x" };
+    while s.len() + unit.len() <= n {
+        s.push_str(unit);
+    }
+    while s.len() < n {
+        s.push('y');
+    }
+    s
+}
+
+fn manifest_for(outs_per_build: &[Vec<String>]) -> String {
+    let mut m = String::from("rule r\n  command = c\n");
+    for outs in outs_per_build {
+        m.push_str("build");
+        for o in outs {
+            m.push(' ');
+            m.push_str(o);
+        }
+        m.push_str(": r\n");
+    }
+    m
+}
+
+fn fresh_db() -> &'static Path {
+    let p = Path::new("rt.n2_db");
+    let _ = std::fs::remove_file(p);
+    p
+}
+
+/// One shape: builds with the given outputs; a list of writes (build index,
+/// dependency names, hash); reopened against the same manifest.
+fn check_shape(outs_per_build: &[Vec<String>], writes: &[(usize, Vec<String>, u64)], label: &str, id: Value, job: &str, res: &mut ShardResult) {
+    res.evaluations += 1;
+    let manifest = manifest_for(outs_per_build);
+    let db = fresh_db();
+    let replay = || json!({"job": job, "id": id, "label": label});
+    let r = catch(|| -> Result<Vec<(Option<u64>, Vec<String>)>, String> {
+        let mut s = DbSession::open(manifest.as_bytes(), db).map_err(|e| format!("open: {}", e))?;
+        for (b, deps, h) in writes {
+            s.write(*b, deps, *h).map_err(|e| format!("write: {}", e))?;
+        }
+        drop(s);
+        let s2 = DbSession::open(manifest.as_bytes(), db).map_err(|e| format!("reopen: {}", e))?;
+        // and once more: opening must not damage the log
+        let loaded = s2.loaded();
+        drop(s2);
+        let s3 = DbSession::open(manifest.as_bytes(), db).map_err(|e| format!("second reopen: {}", e))?;
+        if s3.loaded() != loaded {
+            return Err("a second reopen loads something else".into());
+        }
+        Ok(loaded)
+    });
+    // Expected: per build the last write.
+    let mut expected: Vec<(Option<u64>, Vec<String>)> = vec![(None, vec![]); outs_per_build.len()];
+    let mut representable = true;
+    for (b, deps, h) in writes {
+        if deps.len() > 0xffff || outs_per_build[*b].len() > 0x7fff {
+            representable = false;
+        }
+        expected[*b] = (Some(*h), deps.clone());
+    }
+    match r {
+        Err(p) => res.violation(&p.key(), || format!("{}: panicked: {} at {}", label, p.message, p.location), replay),
+        Ok(Err(e)) => {
+            if representable {
+                res.violation("log-roundtrip-error", || format!("{}: {}", label, e), replay)
+            } else {
+                res.violation("unrepresentable-record-breaks-log", || format!("{}: {}", label, e), replay)
+            }
+        }
+        Ok(Ok(loaded)) => {
+            if representable {
+                if loaded != expected {
+                    let diff = loaded.iter().zip(&expected).position(|(a, b)| a != b).unwrap_or(0);
+                    res.violation(
+                        "loaded-differs-from-written",
+                        || format!("{}: build {} loaded (hash {:?}, {} deps) but (hash {:?}, {} deps) was written", label, diff, loaded[diff].0, loaded[diff].1.len(), expected[diff].0, expected[diff].1.len()),
+                        replay,
+                    );
+                } else {
+                    res.nontrivial += 1;
+                    res.outcome("roundtrip-ok");
+                }
+            } else {
+                // The format cannot hold this record: it may be dropped, but
+                // nothing else may be loaded in its place and other records
+                // must be intact.
+                let mut ok = true;
+                for (i, (a, b)) in loaded.iter().zip(&expected).enumerate() {
+                    let unrepresentable_build = writes.iter().any(|(wb, deps, _)| *wb == i && deps.len() > 0xffff);
+                    if unrepresentable_build {
+                        if a.0.is_some() && a != b {
+                            ok = false;
+                        }
+                    } else if a != b {
+                        ok = false;
+                    }
+                }
+                if ok {
+                    res.outcome("unrepresentable-dropped");
+                } else {
+                    res.violation(
+                        "unrepresentable-record-corrupts-log",
+                        || format!("{}: a record that does not fit the format was written and the log now loads different content", label),
+                        replay,
+                    );
+                }
+            }
+        }
+    }
+}
+
+fn shapes_job(ctx: &mut Ctx, res: &mut ShardResult) {
+    let job = ctx.job.clone();
+    let mut idx = 0u64;
+    let only: Option<u64> = ctx.replay.as_ref().and_then(|c| c["id"]["index"].as_u64());
+    let mut go = |idx: u64| -> bool {
+        match only {
+            Some(o) => o == idx,
+            None => idx % ctx.nshards == ctx.shard,
+        }
+    };
+    // (a) output count x dependency count
+    for nouts in 1..=3usize {
+        for &ndeps in DEP_COUNTS {
+            for utf8 in [false, true] {
+                idx += 1;
+                if !go(idx) {
+                    continue;
+                }
+                ctx.marker.set(idx, format!("outs {} deps {}", nouts, ndeps).as_bytes());
+                let outs: Vec<String> = (0..nouts).map(|i| format!("{}{}", if utf8 { "ö" } else { "o" }, i)).collect();
+                let deps: Vec<String> = (0..ndeps).map(|i| format!("d/{}{}", if utf8 { "é" } else { "h" }, i)).collect();
+                // a second build with an ordinary record after it, to see that
+                // the log stays aligned
+                let builds = vec![outs, vec!["other".to_string()]];
+                let writes = vec![(0usize, deps, 0x1122334455667788u64 + ndeps as u64), (1usize, vec!["d/h0".to_string()], 42u64)];
+                check_shape(&builds, &writes, &format!("{} outputs, {} dependencies", nouts, ndeps), json!({"index": idx}), &job, res);
+            }
+        }
+    }
+    // (b) name lengths at field boundaries, in output and dependency position
+    for &len in NAME_LENS {
+        for utf8 in [false, true] {
+            for pos in 0..2 {
+                idx += 1;
+                if !go(idx) {
+                    continue;
+                }
+                ctx.marker.set(idx, format!("name length {}", len).as_bytes());
+                let long = name_of_len(if pos == 0 { "o" } else { "d" }, len, utf8);
+                let (outs, deps) = if pos == 0 {
+                    (vec![long, "o2".to_string()], vec!["dep".to_string()])
+                } else {
+                    (vec!["o1".to_string()], vec!["dep".to_string(), long])
+                };
+                let builds = vec![outs, vec!["other".to_string()]];
+                let writes = vec![(0usize, deps, 7u64), (1usize, vec![], 8u64)];
+                check_shape(&builds, &writes, &format!("name of {} bytes in {} position", len, if pos == 0 { "output" } else { "dependency" }), json!({"index": idx}), &job, res);
+            }
+        }
+    }
+    // (c) many records: superseded ones, interleaved builds, repeated deps
+    for n in [2usize, 3, 10, 100] {
+        idx += 1;
+        if !go(idx) {
+            continue;
+        }
+        let builds: Vec<Vec<String>> = (0..3).map(|b| vec![format!("out{}", b)]).collect();
+        let mut writes = Vec::new();
+        for i in 0..n {
+            let b = i % 3;
+            let deps: Vec<String> = (0..(i % 4)).map(|d| format!("dep{}", (d + i) % 5)).collect();
+            writes.push((b, deps, 1000 + i as u64));
+        }
+        check_shape(&builds, &writes, &format!("{} interleaved records", n), json!({"index": idx}), &job, res);
+    }
+    res.sample(|| json!({"shape": "outs 1..3 x deps {0,1,2,255,256,257,65535,65536,65537}; name lengths {1,2,127,128,255,256,1000,4095}"}));
+}
+
+/// Assignment of three file names to {not an output, step 1, step 2}.
+fn decode_assign(code: usize) -> [usize; 3] {
+    [code % 3, (code / 3) % 3, (code / 9) % 3]
+}
+
+const FILES: [&str; 3] = ["fa", "fb", "fc"];
+
+fn steps_of(assign: [usize; 3]) -> Vec<Vec<String>> {
+    let mut v = Vec::new();
+    for s in 1..=2 {
+        let outs: Vec<String> = (0..3).filter(|&i| assign[i] == s).map(|i| FILES[i].to_string()).collect();
+        if !outs.is_empty() {
+            v.push(outs);
+        }
+    }
+    v
+}
+
+fn attribution_job(ctx: &mut Ctx, res: &mut ShardResult) {
+    let job = ctx.job.clone();
+    let only: Option<(u64, u64)> = ctx.replay.as_ref().map(|c| (c["id"]["old"].as_u64().unwrap_or(0), c["id"]["new"].as_u64().unwrap_or(0)));
+    let mut idx = 0u64;
+    for old in 1..27usize {
+        for new in 1..27usize {
+            idx += 1;
+            match only {
+                Some((o, n)) => {
+                    if o != old as u64 || n != new as u64 {
+                        continue;
+                    }
+                }
+                None => {
+                    if idx % ctx.nshards != ctx.shard {
+                        continue;
+                    }
+                }
+            }
+            let old_steps = steps_of(decode_assign(old));
+            let new_steps = steps_of(decode_assign(new));
+            if old_steps.is_empty() || new_steps.is_empty() {
+                continue;
+            }
+            ctx.marker.set(idx, format!("old {} new {}", old, new).as_bytes());
+            // every order of the outputs inside each old statement, both
+            // record orders
+            let perm_lists: Vec<Vec<Vec<usize>>> = old_steps.iter().map(|s| permutations(s.len())).collect();
+            let mut combos: Vec<Vec<Vec<usize>>> = vec![vec![]];
+            for pl in &perm_lists {
+                let mut next = Vec::new();
+                for c in &combos {
+                    for p in pl {
+                        let mut c2 = c.clone();
+                        c2.push(p.clone());
+                        next.push(c2);
+                    }
+                }
+                combos = next;
+            }
+            for combo in &combos {
+                let ordered: Vec<Vec<String>> = old_steps.iter().zip(combo).map(|(s, p)| p.iter().map(|&i| s[i].clone()).collect()).collect();
+                let n_old = ordered.len();
+                let record_orders: Vec<Vec<usize>> = if n_old == 2 { vec![vec![0, 1], vec![1, 0], vec![0, 1, 0]] } else { vec![vec![0], vec![0, 0]] };
+                for rorder in &record_orders {
+                    res.evaluations += 1;
+                    let id = json!({"old": old, "new": new});
+                    let old_manifest = manifest_for(&ordered);
+                    let new_manifest = manifest_for(&new_steps);
+                    let db = fresh_db();
+                    // records: (outs, deps, hash) in log order
+                    let mut log: Vec<(Vec<String>, Vec<String>, u64)> = Vec::new();
+                    let r = catch(|| -> Result<Vec<(Option<u64>, Vec<String>)>, String> {
+                        let mut s = DbSession::open(old_manifest.as_bytes(), db).map_err(|e| format!("open: {}", e))?;
+                        for (n, &b) in rorder.iter().enumerate() {
+                            let deps = vec![format!("dep_of_{}_{}", b, n)];
+                            let hash = 100 * (b as u64 + 1) + n as u64;
+                            s.write(b, &deps, hash).map_err(|e| format!("write: {}", e))?;
+                            log.push((ordered[b].clone(), deps, hash));
+                        }
+                        drop(s);
+                        let s2 = DbSession::open(new_manifest.as_bytes(), db).map_err(|e| format!("reopen: {}", e))?;
+                        Ok(s2.loaded())
+                    });
+                    let mut expected: Vec<(Option<u64>, Vec<String>)> = Vec::new();
+                    for t in &new_steps {
+                        let mut e: (Option<u64>, Vec<String>) = (None, vec![]);
+                        for (outs, deps, hash) in &log {
+                            if outs.iter().all(|o| t.contains(o)) {
+                                e = (Some(*hash), deps.clone());
+                            }
+                        }
+                        expected.push(e);
+                    }
+                    let label = format!("old manifest {:?} with records in order {:?}, new manifest {:?}", ordered, rorder, new_steps);
+                    let replay = || json!({"job": job, "id": id, "label": label});
+                    match r {
+                        Err(p) => res.violation(&p.key(), || format!("{}: panicked: {} at {}", label, p.message, p.location), replay),
+                        Ok(Err(e)) => res.violation("log-roundtrip-error", || format!("{}: {}", label, e), replay),
+                        Ok(Ok(loaded)) => {
+                            if loaded != expected {
+                                let key = if loaded.iter().zip(&expected).any(|(a, b)| a.0.is_some() && b.0.is_none()) {
+                                    "record-applied-to-step-that-does-not-produce-all-its-outputs"
+                                } else if loaded.iter().zip(&expected).any(|(a, b)| a.0.is_none() && b.0.is_some()) {
+                                    "applicable-record-not-applied"
+                                } else {
+                                    "wrong-record-applied"
+                                };
+                                res.violation(key, || format!("{}: loaded {:?}, expected {:?}", label, loaded, expected), replay);
+                            } else {
+                                if old != new {
+                                    res.nontrivial += 1;
+                                }
+                                res.outcome(if expected.iter().any(|e| e.0.is_some()) { "some-record-applies" } else { "no-record-applies" });
+                            }
+                        }
+                    }
+                }
+            }
+            if idx % 101 == 0 {
+                res.sample(|| json!({"old_steps": old_steps, "new_steps": new_steps}));
+            }
+        }
+    }
+}
+
+pub fn run(ctx: &mut Ctx) -> ShardResult {
+    let mut res = ShardResult::default();
+    let job = ctx.job.clone();
+    match job.split(':').nth(1).unwrap_or("") {
+        "shapes" => shapes_job(ctx, &mut res),
+        "attribution" => attribution_job(ctx, &mut res),
+        other => panic!("unknown dbrt job {}", other),
+    }
+    res
 }
